@@ -95,3 +95,11 @@ CORPUS += [
     T('c02-benign-patterns-filled-in-a-loop', SP, "    patterns = dict(zip(taxa, patterns_list))\n", "    patterns = {}\n    for name, row in zip(taxa, patterns_list):\n        patterns[name] = row\n", benign=True),
     T('c02-patterns-keyed-by-position', SP, "    patterns = dict(zip(taxa, patterns_list))\n", "    patterns = dict(zip(sorted(taxa), patterns_list))\n", expect=[('C02.N', 'compress::patterns-keyed-by-taxon-name')]),
 ]
+CORPUS += [
+    T('c02-single-sites-as-one-element-slices', SP, "                sequences_new[idx] += sequence[index]\n",
+      "                sequences_new[idx] += ''.join(sequence[index if isinstance(index, slice) else slice(index, index + 1)])\n", expect=[('C02.N', 'evolution::column-selections-resolved-by-python-slicing')]),
+    T('c02-newick-rooting-left-to-the-string', TM, "            data=data['newick'],\n            schema='newick',\n            preserve_underscores=True,\n            rooting='force-rooted',",
+      "            data=data['newick'],\n            schema='newick',\n            preserve_underscores=True,\n            rooting='default-rooted',", expect=[('C02.N', 'evolution::newick-read-as-a-rooted-tree')]),
+    T('c02-benign-newick-options-shared-in-a-dictionary', TM, "        tree = Tree.get(\n            data=data['newick'],\n            schema='newick',\n            preserve_underscores=True,\n            rooting='force-rooted',\n            taxon_namespace=taxon_namespace,\n        )",
+      "        opts = dict(schema='newick', preserve_underscores=True, rooting='force-rooted', taxon_namespace=taxon_namespace)\n        tree = Tree.get(data=data['newick'], **opts)", benign=True),
+]
